@@ -9,7 +9,7 @@ import concurrent.futures, json, os, traceback
 from vlib import common as C, e2e, sysrun as S, split_corr
 
 PROP = "C03"
-THEOREMS = ["GitAi.Sys.no_invention", "GitAi.Sys.ghost_only_from_agent_edit"]
+THEOREMS = ["GitAi.Sys.no_invention", "GitAi.Sys.ghost_only_from_agent_edit", "GitAi.Sys.restore_is_valid_edit"]
 SESS = ["s1", "s2"]
 HASH2S = {S.hash_of(s): s for s in SESS}
 
